@@ -51,8 +51,12 @@ class Lock:
     """One build at a time in /verif/build (checks may be started concurrently)."""
 
     def __init__(self, name="build"):
+        # the Coq tree (and Generated/*.v) is shared even when VERIF_BUILD points elsewhere
+        # (bin/seedtest): always serialise builds on one lock file
+        shared = os.path.join(VERIF, "build")
+        os.makedirs(shared, exist_ok=True)
         os.makedirs(BUILD, exist_ok=True)
-        self.path = os.path.join(BUILD, "." + name + ".lock")
+        self.path = os.path.join(shared, "." + name + ".lock")
 
     def __enter__(self):
         self.f = open(self.path, "w")
